@@ -10,7 +10,7 @@
    plus the facts about them that the handshake proofs need.  The definitions of big_bytes, fixed_bytes,
    copy_into, gslice, zbuf are those verified under C05 and are imported, not repeated. *)
 From Coq Require Import ZArith NArith List Lia ZifyN ZifyNat ZifyBool Bool.
-From MTV Require Import Base.Bytes Base.Outcome Prim.Xor Prim.Sha1 Crypto.TempKeys Crypto.TempKeysProofs.
+From MTV Require Import Base.Bytes Base.Outcome Prim.Xor Prim.Sha1 Crypto.IgeProofs Crypto.TempKeys Crypto.TempKeysProofs.
 Import ListNotations.
 Open Scope nat_scope.
 Ltac Zify.zify_post_hook ::= Z.div_mod_to_equations.
@@ -107,10 +107,10 @@ Lemma okb_repeat0 n : okb (repeat 0%N n).
 Proof. unfold okb. induction n; [reflexivity|]. cbn [repeat bytes_ok forallb]. exact IHn. Qed.
 
 Lemma okb_firstn n l : okb l -> okb (firstn n l).
-Proof. unfold okb. rewrite !bytes_ok_forall. apply Forall_firstn. Qed.
+Proof. apply ok_firstn. Qed.
 
 Lemma okb_skipn n l : okb l -> okb (skipn n l).
-Proof. unfold okb. rewrite !bytes_ok_forall. apply Forall_skipn. Qed.
+Proof. apply ok_skipn. Qed.
 
 Lemma big_bytes_ok n : okb (big_bytes n).
 Proof. unfold big_bytes. apply okb_rev, le_min_ok. Qed.
